@@ -127,7 +127,7 @@ func rebuildFormatCommand() {
 
 func processAll(ctxt *processors.Context, checkOnly bool) error {
 	failed := false
-	err := filepath.WalkDir(ctxt.RootContext().AssemblyDir(), func(filePath string, d fs.DirEntry, err error) error {
+	err := filepath.WalkDir(utils.WalkRoot(ctxt.RootContext().AssemblyDir()), func(filePath string, d fs.DirEntry, err error) error {
 		if err != nil {
 			// abort
 			logger.Error().Err(err).Msg("failed to walk directories")
